@@ -5,6 +5,7 @@ import importlib
 TABLE = {
     'C02': ('harness.c02', lambda m, tier, only: m.main('C02', 'in', tier, only)),
     'C14': ('harness.c02', lambda m, tier, only: m.main('C14', 'out', tier, only)),
+    'C07': ('harness.c07', lambda m, tier, only: m.main('C07', tier, only)),
 }
 
 
